@@ -120,6 +120,17 @@ def gen_history(r, files, t_prev):
         when = r.choice([t_prev - 50, t_prev - 1, t_prev - 0.5, t_prev, t_prev + 0.5, t_prev + 0.5, t_prev + 1, t_prev + 2, t_prev + 50])
         if k in ('same', 'other', 'delete', 'touch') and not live:
             k = 'add'
+        if r.random() < 0.08:
+            # a directory that arrives with a Manifest of its own and with preserved (possibly old) times, as tar -x / rsync -t / cp -a leave it
+            import hashlib
+            d = 'vendor%d' % r.randint(0, 3)
+            if not any(p == d or p.startswith(d + '/') for p in files):
+                data = bytes(r.getrandbits(8) for _ in range(r.randint(1, 12)))
+                man = ('DATA data.bin %d SHA1 %s\n' % (len(data), hashlib.sha1(data).hexdigest())).encode()
+                ops.append(['add-dir', d, [['data.bin', data], [r.choice(['Manifest', 'Manifest', 'Manifest.gz']), man]], when])
+                files.add(d + '/data.bin')
+                live.append(d + '/data.bin')
+                continue
         if k == 'add':
             d = r.choice(sorted({os.path.dirname(p) for p in files} | {''}))
             name = r.choice(['n1', 'n2', 'new file', 'zz9'])
@@ -144,6 +155,16 @@ def apply_history(base, ops):
     """returns False if some same-size modification got an mtime that is not later than the previous TIMESTAMP"""
     for op in ops:
         p = os.path.join(base, op[1])
+        if op[0] == 'add-dir':
+            import gzip
+            os.makedirs(p, exist_ok=True)
+            for name, data in op[2]:
+                q = os.path.join(p, name)
+                with open(q, 'wb') as f:
+                    f.write(gzip.compress(data, mtime=0) if name.endswith('.gz') else data)
+                os.utime(q, (op[3], op[3]))
+            os.utime(p, (op[3], op[3]))
+            continue
         if op[0] == 'add':
             with open(p, 'wb') as f:
                 f.write(op[2])
@@ -170,6 +191,8 @@ def premise_ok(ops, t_prev, sizes):
     state = {}
     for op in ops:
         k, p = op[0], op[1]
+        if k == 'add-dir':
+            continue          # new files: always hashed
         if k == 'delete':
             state[p] = {'gone': True, 'mod': False, 'sz': False, 'new': False, 'mt': None, 'len': None}
             continue
